@@ -45,6 +45,17 @@ package ast
 //@   ensures n == nil ==> len(result) == 0
 //@   ensures n != nil ==> sameslice(result, n.tree.content[n.offset:n.endoffset])
 
+// SourceRange (C22): the origin of every diagnostic. Offsets are the node's; the line is the one
+// containing the start offset and the column counts bytes from that line's start, 1-based.
+//@ func Node.SourceRange
+//@   option nilable-receiver
+//@   requires n != nil ==> n.tree != nil && lineTable(n.tree.lines) && n.offset >= 0
+//@   ensures n == nil ==> result.Offset == 0 && result.EndOffset == 0 && result.Line == 0 && result.Column == 0
+//@   ensures n != nil ==> result.Offset == n.offset && result.EndOffset == n.endoffset && sameslice(result.Filename, n.tree.path)
+//@   ensures n != nil ==> 1 <= result.Line && result.Line <= len(n.tree.lines) && n.tree.lines[result.Line-1] <= n.offset
+//@   ensures n != nil && result.Line < len(n.tree.lines) ==> n.offset < n.tree.lines[result.Line]
+//@   ensures n != nil ==> result.Column == n.offset - n.tree.lines[result.Line-1] + 1
+
 // ---- the tree builder (C20): nodes arrive in post-order, each one adopts the stack entries it covers ----
 
 // wfStack: every stack entry is a node; entries are pairwise distinct and sorted by start offset
